@@ -35,7 +35,7 @@ def bounds(tier):
 
 def required_cells(tier):
     return ["distinct-codebase-orders", "distinct-platform-orders", "distinct-scandir-orders", "hashseed", "shuffle", "creation-order",
-            "toml-permuted", "duplicates-present", "cov-compared", "clustering-compared", "mode-flag-with-repeated-define"]
+            "toml-permuted", "duplicates-present", "cov-compared", "clustering-compared", "mode-flag-with-repeated-define", "file-symlinks", "cross-language-alias"]
 
 
 def gen_case(rng):
@@ -52,7 +52,16 @@ def gen_case(rng):
             ["chain", [["if", "DUP == 1", [["code"]]], ["elif", "DUP == 2", [["code"]]], ["else", None, [["code"]]]]],
             ["chain", [["ifdef", "_OPENMP", [["code"]]], ["else", None, [["code"]]]]]]
     case["extra"] = dict(c06.EXTRA)
+    # file symlinks: a second name for a compiled file and for a header, and a name with another language's extension
     case["links"] = {}
+    t0 = case["tus"][0]["file"]
+    case["links"][os.path.join(os.path.dirname(t0), "alias_" + os.path.basename(t0))] = os.path.basename(t0)
+    hdrs = sorted(r for r in case["files"] if r.endswith(".h") and not r.startswith("@"))
+    if hdrs:
+        h = rng.choice(hdrs)
+        case["links"]["extra/deep/alias_" + os.path.basename(h)] = os.path.relpath(h, "extra/deep")
+    case["links"]["extra/f_alias.inc"] = "f.f90"        # C++-style extension for a free-form Fortran file
+    case["links"]["extra/u_alias.f90"] = "u.c"          # and the reverse
     # duplicates: copies of some files under other names
     case["dups"] = {}
     rels = sorted(case["files"])
@@ -86,6 +95,13 @@ def build(case, base, order_seed):
             f.write(text)
     for d in forest.INC_DIRS + ["src"]:
         os.makedirs(os.path.join(root, d), exist_ok=True)
+    links = sorted(case.get("links", {}).items())
+    random.Random(order_seed + 1).shuffle(links)
+    for l, t in links:
+        p = os.path.join(root, l)
+        os.makedirs(os.path.dirname(p), exist_ok=True)
+        if not os.path.lexists(p) and os.path.exists(os.path.join(os.path.dirname(p), t)):
+            os.symlink(t, p)
     return os.path.realpath(root)
 
 
@@ -157,7 +173,9 @@ def check_case(ctx, case, base, cls, do_clustering=False):
                 ("shuffle", dict(hashseed="4", shuffle=12, order=0, perm=3)),
                 ("creation-order", dict(hashseed="0", shuffle=None, order=7, perm=0)),
                 ("toml-permuted", dict(hashseed="0", shuffle=None, order=0, perm=5))]
-    cells = {"duplicates-present"}
+    cells = {"duplicates-present", "file-symlinks"}
+    if os.path.islink(os.path.join(root, "extra/f_alias.inc")):
+        cells.add("cross-language-alias")
     if any(tu.get("extra_args") for tu in case["tus"]):
         cells.add("mode-flag-with-repeated-define")
     runs = []
